@@ -318,6 +318,6 @@ def judge(case, rec):
 
 SUBCHECKS = [
     SubCheck("slices", case_st(SHAPES), judge, quick=8000, thorough=100000),
-    SubCheck("strands", case_st([("cat",), ("cat",), ("mr",), ("cat_date",), ("na",)],
-                                strand=True), judge, quick=2000, thorough=30000),
+    SubCheck("strands", case_st([("cat",), ("mr",), ("mr",), ("mr",), ("cat_date",), ("na",)],
+                                strand=True), judge, quick=8000, thorough=100000),
 ]
